@@ -375,6 +375,10 @@ def plan(ctx):
         # automatic sowing inside a window (temperature rule in April, latest date 31 May): a standing crop must not be sown again
         add([("SM", ""), ("SOY", rnd.choice(SOY_VARIETIES)), ("SM", "")], rnd.choice(["075", "160", "002"]), "historical", 1 + ctx.seed % 3,
             150, ctx.seed % 2 == 0, 1981 + rnd.randrange(0, 20), autosow=True)
+        # legumes under YAML parameters through grain filling and senescence to harvest (a mis-read 'permanent crop' flag would let
+        # the regrowth block throw them back to stage 1)
+        add([("SOY", rnd.choice(SOY_VARIETIES)), ("LUP", ""), ("SOY", "")], rnd.choice(["075", "160", "002"]), "historical", 1 + ctx.seed % 3, 60, True,
+            1981 + rnd.randrange(0, 18))
         # the same crop in consecutive rotation entries: an annual crop is established anew every time (both parameter formats),
         # only a perennial stand is carried over
         a1, a2 = rnd.sample(["SM", "WW", "SW", "WG", "K"], 2)
@@ -710,6 +714,29 @@ def oracle(ctx, search):
         m = re.match(r"daylength-invalid:(\S+) lat=(\S+) day=(\S+)", l)
         fails.append(Fail(key="daylength-invalid:%s" % (m.group(1) if m else "?"), what=l,
                           how_to_replay="hermes.CalculateDayLenght(day, lat) with the printed day and latitude"))
+    # reader tie: for every crop parameter file shipped in both formats the YAML reader and the classic reader deliver the same
+    # flags and parameters (tables included); permanent crops are exactly grass land / pasture / alfalfa
+    trc, tcases, _, _, terr = waterlib.run_harness(ctx, "c09tables", ["-dirs", ",".join(table_dirs())])
+    byfile = {x["file"]: x for x in tcases if x.get("k") == "table"}
+    pairs = 0
+    for fn, y in byfile.items():
+        if not fn.endswith(".yml"):
+            continue
+        t = byfile.get(fn[:-4])
+        code = os.path.basename(fn)[:-4].rsplit(".", 1)[-1]
+        if y["params"]["DAUERKULT"] != (code in ("GR", "GRE", "AA")):
+            fails.append(Fail(key="reader:permanent-crop-flag:%s" % os.path.basename(fn), what="%s read with DAUERKULT=%s LEGUM=%s" % (fn, y["params"]["DAUERKULT"], y["params"]["LEGUM"])))
+        if not t:
+            continue
+        pairs += 1
+        for k in sorted(y["params"]):
+            if y["params"][k] != t["params"][k]:
+                fails.append(Fail(key="reader:formats-differ:%s:%s" % (os.path.basename(fn), k),
+                                  what="%s: %s = %r from the YAML reader, %r from the classic reader" % (os.path.basename(fn), k, y["params"][k], t["params"][k])))
+        for k in ("pro", "dead"):
+            if y[k] != t[k]:
+                fails.append(Fail(key="reader:formats-differ:%s:%s" % (os.path.basename(fn), k.upper()), what="%s: table %s differs between the readers" % (fn, k)))
+    ctx.extra["crop_parameter_files_compared_yml_vs_classic"] = pairs
     # reported phenology: the crop result file must show the day-of-year of the traced stage dates, in order
     crops = [x for x in cases if x["k"] == "crop"]
     byline = {}
